@@ -224,6 +224,9 @@ def run(tier):
     chk.floor('obligations', len(chk.obls), 30)
     buffers_disjoint(chk)
     input_mode_is_read_only(chk)
+    # a reset context starts from defined engine state (shared with C01)
+    from .c01 import handshake_state_reset
+    handshake_state_reset(chk)
     from . import c19
     c19.close_order(chk)
     from .. import oblig as _ob2
